@@ -307,7 +307,8 @@ def draw_call_forms(draw, case):
         f = draw(st.sampled_from(ARGFORMS))
         if f != "plain":
             op["argform"] = f
-    case["end"] = draw(st.sampled_from(["close", "close", "with", "del", "withexc", "withexc"]))
+    # (atexit / fork run the recording in a process of its own: see rfharness.run_python_proc)
+    case["end"] = draw(st.sampled_from(["close", "close", "close", "with", "del", "del", "withexc", "withexc", "atexit", "fork"]))
     if draw(st.integers(0, 2)) == 0:
         case["sibling"] = draw_sibling(draw, case["cfg"])
     return case
